@@ -871,7 +871,112 @@ interface does not involve its node; the airspace keys its load by hz and its ca
 theorem C18_gen_flags :
     Gen.Link.tickResetsEveryLoad = true ∧ Gen.Link.disableClearsLoad = false ∧
     Gen.Link.rejectedMeansNodeNotInvolved = true ∧ Gen.Link.bytesPerMbit = 131072 ∧
-    Gen.Link.airLoadKey = "frequency_hz" ∧ Gen.Link.airCapacityKey = "name" := by decide
+    Gen.Link.airLoadKey = "frequency_hz" ∧ Gen.Link.airCapacityKey = "name" ∧ Gen.Link.sizeIsWholeBytes = true := by decide
+
+/-! ### Inventories regenerated from the source: a class, a writer, a handler or a caller that appears (or disappears) breaks an
+obligation here, so nothing the model does not follow can be added silently -/
+
+/-- Every class of the `NetworkInterface` hierarchy that defines `send_frame`, `enable` or `disable`, with the order of its steps.
+The classes that transmit (`WiredNetworkInterface` and everything inheriting its `send_frame` — NIC, RouterInterface —, `SwitchPort`,
+`WirelessNetworkInterface` and its heir `wireless_router.WirelessAccessPoint`) follow the model's orders; `NetworkInterface.send_frame`
+only counts traffic (reached through `super()`); the two stub classes under `network_interface/wireless/` never transmit.
+`enable` sets the flag only after every precondition and before anything is sent (`hello` comes after `super`), `disable` clears it
+and touches no load. -/
+def ifaceMethodsModelled : List (String × String × String × List String) := [
+  ("IPWiredNetworkInterface", "base.py", "enable", ["super", "hello"]),
+  ("IPWirelessNetworkInterface", "airspace.py", "enable", ["super", "hello"]),
+  ("NetworkInterface", "base.py", "disable", ["abstract"]),
+  ("NetworkInterface", "base.py", "enable", ["abstract"]),
+  ("NetworkInterface", "base.py", "send_frame", ["capture"]),
+  ("SwitchPort", "switch.py", "send_frame", ["enabled", "admission", "transmit"]),
+  ("WiredNetworkInterface", "base.py", "disable", ["noop-if-disabled", "clear", "endpoint_down"]),
+  ("WiredNetworkInterface", "base.py", "enable", ["noop-if-enabled", "needs-node", "needs-node-on", "needs-link", "set", "endpoint_up"]),
+  ("WiredNetworkInterface", "base.py", "send_frame", ["enabled", "stamp", "admission", "transmit"]),
+  ("WirelessAccessPoint", "wireless_access_point.py", "disable", ["stub"]),
+  ("WirelessAccessPoint", "wireless_access_point.py", "enable", ["stub"]),
+  ("WirelessAccessPoint", "wireless_access_point.py", "send_frame", ["stub"]),
+  ("WirelessNIC", "wireless_nic.py", "disable", ["stub"]),
+  ("WirelessNIC", "wireless_nic.py", "enable", ["stub"]),
+  ("WirelessNIC", "wireless_nic.py", "send_frame", ["stub"]),
+  ("WirelessNetworkInterface", "airspace.py", "disable", ["noop-if-disabled", "clear", "leave-airspace"]),
+  ("WirelessNetworkInterface", "airspace.py", "enable", ["noop-if-enabled", "needs-node", "needs-node-on", "set", "join-airspace"]),
+  ("WirelessNetworkInterface", "airspace.py", "send_frame", ["enabled", "stamp", "admission", "transmit"])
+]
+
+theorem C18_gen_iface_inventory : Gen.Link.ifaceMethods = ifaceMethodsModelled := by decide
+
+/-- Every `send_frame` of the hierarchy is one of: the wired order, the switch-port order, the wireless order (stamp — except on a
+switch port, which only forwards stamped frames —, admission, transmit, in that order after the `enabled` test), pure bookkeeping,
+or a stub that sends nothing. -/
+theorem C18_gen_every_send_frame_modelled :
+    ∀ e ∈ Gen.Link.ifaceMethods, e.2.2.1 = "send_frame" →
+      e.2.2.2 = wiredSendOrder ∨ e.2.2.2 = switchSendOrder ∨ e.2.2.2 = wirelessSendOrder ∨ e.2.2.2 = ["capture"] ∨ e.2.2.2 = ["stub"] := by
+  decide
+
+/-- Nothing in src/primaite assigns a link's `bandwidth` or a frequency's `data_rate_bps`, or calls
+`set_frequency_max_capacity_mbps` / `register_frequency`, except `set_frequency_max_capacity_mbps` itself and
+`PrimaiteGame.from_config` (before any node exists).  So inside the simulator capacities are constant (`NoCap`); `Op.setBw` /
+`Op.setCap` model what a user's script can do between actions. -/
+theorem C18_gen_capacity_writers : Gen.Link.capacityWriters = [
+  "airspace.py:AirSpace.set_frequency_max_capacity_mbps:self.frequencies[freq].data_rate_bps=",
+  "game.py:PrimaiteGame.from_config:set_frequency_max_capacity_mbps()"] := by decide
+
+/-- The functions under simulator/network and simulator/system that contain a `try`.  None of them is on the path
+`send_frame → transmit_frame → receive_frame → node → session manager → software.receive` except the two FTP handlers
+(`_store_data` wraps file creation; `_retrieve_data` wraps `_send_data`, so an exception raised under a frame the FTP server sends
+is caught there: the sends below are `lost`, the delivery above completes — the second example after `C18_lost_stays_accounted`). -/
+theorem C18_gen_try_sites : Gen.Link.trySites = [
+  "ftp_service.py:FTPServiceABC._retrieve_data",
+  "ftp_service.py:FTPServiceABC._store_data",
+  "networks.py:_get_example_network",
+  "router.py:AccessControlList._init_request_manager",
+  "web_browser.py:WebBrowser.get_webpage"] := by decide
+
+/-- The software through which a received payload becomes a request executed on the receiving node (and so can disable or enable
+an interface, or power the node off, while the carrying frame is still being delivered): `Terminal.execute` is the only caller of
+`apply_request`; it is reached from `Terminal.receive` (remote command over SSH), from a local terminal connection, and from the
+C2 beacon's TERMINAL / exfiltration commands.  The rig drives the first and the C2 path (`rcmd`, `c2` operations). -/
+theorem C18_gen_remote_executors : Gen.Link.remoteExecutors = [
+  "c2_beacon.py:C2Beacon._command_data_exfiltration:execute",
+  "c2_beacon.py:C2Beacon._command_terminal:execute",
+  "c2_beacon.py:C2Beacon._perform_exfiltration:execute",
+  "terminal.py:LocalTerminalConnection.execute:execute",
+  "terminal.py:Terminal._init_request_manager:execute",
+  "terminal.py:Terminal.execute:apply_request"] := by decide
+
+/-- Every call that can change `enabled` of an interface, and every direct write of the flag. -/
+theorem C18_gen_toggle_sites : Gen.Link.toggleSites = [
+  "airspace.py:IPWirelessNetworkInterface.enable:super().enable",
+  "airspace.py:WirelessNetworkInterface.disable:self.enabled=False",
+  "airspace.py:WirelessNetworkInterface.enable:self.enabled=True",
+  "base.py:IPWiredNetworkInterface.enable:super().enable",
+  "base.py:NetworkInterface._init_request_manager:self.disable",
+  "base.py:NetworkInterface._init_request_manager:self.enable",
+  "base.py:NetworkInterface.setup_for_episode:self.enable",
+  "base.py:Node.apply_timestep:network_interface.enable",
+  "base.py:Node.connect_nic:network_interface.enable",
+  "base.py:Node.disconnect_nic:network_interface.disable",
+  "base.py:Node.power_off:network_interface.disable",
+  "base.py:Node.power_on:network_interface.enable",
+  "base.py:WiredNetworkInterface.connect_link:self.enable",
+  "base.py:WiredNetworkInterface.disable:self.enabled=False",
+  "base.py:WiredNetworkInterface.disconnect_link:self.disable",
+  "base.py:WiredNetworkInterface.enable:self.enabled=True",
+  "container.py:Network.setup_for_episode:network_interface.enable",
+  "creation.py:OfficeLANAdder.add_nodes_to_net:enable_port",
+  "creation.py:OfficeLANAdder.add_nodes_to_net:switch.network_interface[switch_port].enable",
+  "firewall.py:Firewall.configure_dmz_port:self.dmz_port.enable",
+  "firewall.py:Firewall.configure_external_port:self.external_port.enable",
+  "firewall.py:Firewall.configure_internal_port:self.internal_port.enable",
+  "networks.py:arcd_uc2_network:enable_port",
+  "networks.py:client_server_routed:enable_port",
+  "router.py:Router.disable_port:network_interface.disable",
+  "router.py:Router.enable_port:network_interface.enable",
+  "router.py:Router.setup_for_episode:enable_port",
+  "wireless_router.py:WirelessRouter.configure_router_interface:self.router_interface.disable",
+  "wireless_router.py:WirelessRouter.configure_router_interface:self.router_interface.enable",
+  "wireless_router.py:WirelessRouter.configure_wireless_access_point:self.wireless_access_point.disable",
+  "wireless_router.py:WirelessRouter.configure_wireless_access_point:self.wireless_access_point.enable"] := by decide
 
 /-! ### Non-vacuity: a tight link, an ARP-like request whose delivery triggers the reply -/
 
